@@ -33,7 +33,7 @@ func genForCase(t *rapid.T) forCase {
 	return c
 }
 
-var forFeatures = rc.Features{Comments: true, Blank: true, CaseVar: true, Indent: true}
+var forFeatures = rc.Features{Comments: true, Blank: true, CaseVar: true, Indent: true, Colons: true, OwnLine: true, ForOwnLine: true}
 
 func judgeForCase(c forCase, rec *hx.Rec) string {
 	cfg := c.Cfg.RC()
@@ -100,6 +100,8 @@ func judgeForCase(c forCase, rec *hx.Rec) string {
 		add(i.EquInsideBlock, "equ_defined_inside_a_block")
 		add(i.LabelledBodyStartsWithSilentFor, "labelled_body_starts_with_any_for")
 		add(i.EmptyBody, "empty_body")
+		add(i.LabelInsideBody, "instruction_label_inside_a_body")
+		add(i.EquTwoLevelsDeep, "equ_defined_two_levels_deep")
 		add(i.Nested, "nested")
 		add(i.ZeroCount, "zero_count")
 		add(i.EquCount, "equ_count")
